@@ -331,6 +331,19 @@ static void run_transition(uint64_t seed, unsigned feat, int nbody, int nrep, un
       printf("RESTORE transitionFD %d err %d statevec_equal %d ndiff_fields %d state_fields_differing %d [%s]\n", cen, e2, !memcmp(s0, s1, sizeof(mjtNum) * nst), nd, nsd, st);
       mj_copyData(d, m, d0);
     }
+    // ---- refinement pass: forward differences again with eps/4 (a truncation error shrinks about 4x, a wrong term does not)
+    {
+      mjtNum *AQ = malloc(sizeof(mjtNum) * (ndx * ndx + 1)), *BQ = malloc(sizeof(mjtNum) * (ndx * nu + 1)), *CQ = malloc(sizeof(mjtNum) * (ns * ndx + 1)), *DQ = malloc(sizeof(mjtNum) * (ns * nu + 1));
+      mj_copyData(d0, m, d); int e2 = 0;
+      if (MJG_TRY) { mjd_transitionFD(m, d, eps / 4, 0, AQ, BQ, ns ? CQ : NULL, (ns && nu) ? DQ : NULL); MJG_END; } else e2 = 1;
+      mj_copyData(d, m, d0);
+      if (!e2) {
+        printf("A0Q %d", ndx); pd(AQ, ndx * ndx); printf("\n"); printf("B0Q %d", nu); pd(BQ, ndx * nu); printf("\n");
+        if (ns) { printf("C0Q %d", ns); pd(CQ, ns * ndx); printf("\n"); }
+        if (ns && nu) { printf("D0Q %d", ns); pd(DQ, ns * nu); printf("\n"); }
+      }
+      free(AQ); free(BQ); free(CQ); free(DQ);
+    }
     printf("A0 %d", ndx); pd(A0, ndx * ndx); printf("\n");
     printf("A1 %d", ndx); pd(A1, ndx * ndx); printf("\n");
     printf("B0 %d", nu); pd(B0, ndx * nu); printf("\n");
@@ -405,6 +418,14 @@ static void run_transition(uint64_t seed, unsigned feat, int nbody, int nrep, un
           mj_inverse(m, w); mju_copy(sgn ? fm2 : fp2, w->qfrc_inverse, nv);
         }
         for (int i = 0; i < nv; i++) O[which * nv * nv + j * nv + i] = (fp2[i] - fm2[i]) / (2 * eps);
+      }
+      {  // refinement pass of the (forward-only) mjd_inverseFD with eps/4
+        mjtNum *G1 = malloc(sizeof(mjtNum) * (nv * nv + 1)), *G2 = malloc(sizeof(mjtNum) * (nv * nv + 1)), *G3 = malloc(sizeof(mjtNum) * (nv * nv + 1));
+        mj_copyData(d0, m, d); int e3 = 0;
+        if (MJG_TRY) { mjd_inverseFD(m, d, eps / 4, 0, G1, G2, G3, NULL, NULL, NULL, NULL); MJG_END; } else e3 = 1;
+        mj_copyData(d, m, d0);
+        if (!e3) { printf("IFVQ %d", nv); pd(G2, nv * nv); printf("\n"); printf("IFAQ %d", nv); pd(G3, nv * nv); printf("\n"); }
+        free(G1); free(G2); free(G3);
       }
       printf("IFV %d", nv); pd(F2, nv * nv); printf("\n"); printf("IFVO %d", nv); pd(O, nv * nv); printf("\n");
       printf("IFA %d", nv); pd(F3, nv * nv); printf("\n"); printf("IFAO %d", nv); pd(O + nv * nv, nv * nv); printf("\n");
